@@ -331,6 +331,9 @@ func (w *world) ensureBare(n int, id string) *cli {
 }
 
 func (w *world) opSetup(n int, id string, clean, kt bool) {
+	if w.dead || w.hung {
+		return // a call of this history is parked inside the backend (holding its mutex): nothing more can be asked of it
+	}
 	op := fmt.Sprintf("setup %d %s %s %s", n, hx.Hx([]byte(id)), hx.B01(clean), hx.B01(kt))
 	cl := w.client(n)
 	if cl.setup || w.pendCli != nil {
@@ -410,6 +413,9 @@ func (w *world) opSetup(n int, id string, clean, kt bool) {
 }
 
 func (w *world) opSetupEnd(timeout bool) {
+	if w.dead || w.hung {
+		return // a call of this history is parked inside the backend (holding its mutex): nothing more can be asked of it
+	}
 	if w.pendCli == nil {
 		return
 	}
@@ -438,6 +444,9 @@ func (w *world) opSetupEnd(timeout bool) {
 }
 
 func (w *world) opClosed(n int) {
+	if w.dead || w.hung {
+		return // a call of this history is parked inside the backend (holding its mutex): nothing more can be asked of it
+	}
 	cl := w.client(n)
 	if cl.c == nil || !cl.term {
 		return
@@ -462,6 +471,9 @@ type subT struct {
 }
 
 func (w *world) opSub(n int, subs []subT) {
+	if w.dead || w.hung {
+		return // a call of this history is parked inside the backend (holding its mutex): nothing more can be asked of it
+	}
 	cl := w.client(n)
 	if !cl.hasSess || cl.term || w.blk != nil {
 		return
@@ -483,6 +495,9 @@ func (w *world) opSub(n int, subs []subT) {
 }
 
 func (w *world) opUnsub(n int, fs []string) {
+	if w.dead || w.hung {
+		return // a call of this history is parked inside the backend (holding its mutex): nothing more can be asked of it
+	}
 	cl := w.client(n)
 	if !cl.hasSess || cl.term || w.blk != nil {
 		return
@@ -503,6 +518,9 @@ func (w *world) opUnsub(n int, fs []string) {
 // acknowledgement is what the client sees, so as far as the property is concerned the Publish happens
 // after the Unsubscribe: emitted as `unsub` followed by `ackpub`.
 func (w *world) opUnsubAckPub(n int, fs []string, pn int, m packet.Message) {
+	if w.dead || w.hung {
+		return // a call of this history is parked inside the backend (holding its mutex): nothing more can be asked of it
+	}
 	cl := w.client(n)
 	if !cl.hasSess || cl.term || w.blk != nil {
 		return
@@ -546,6 +564,9 @@ func (w *world) opUnsubAckPub(n int, fs []string, pn int, m packet.Message) {
 }
 
 func (w *world) opPub(n int, m packet.Message) {
+	if w.dead || w.hung {
+		return // a call of this history is parked inside the backend (holding its mutex): nothing more can be asked of it
+	}
 	if w.blk != nil {
 		return
 	}
@@ -601,6 +622,9 @@ func (w *world) opResume() {
 // opDeq calls the real Dequeue; which queue the message came from is inferred from the
 // queue lengths (a blocked Publish can add at most one message to its own queue kind).
 func (w *world) opDeq(n int) (fromTemp bool, ok bool) {
+	if w.dead || w.hung {
+		return false, false
+	}
 	cl := w.client(n)
 	if !cl.hasSess || cl.term || cl.c.VerifIsClosing() {
 		return false, false
@@ -669,6 +693,9 @@ func (w *world) opDeq(n int) (fromTemp bool, ok bool) {
 }
 
 func (w *world) opTerm(n int) {
+	if w.dead || w.hung {
+		return // a call of this history is parked inside the backend (holding its mutex): nothing more can be asked of it
+	}
 	cl := w.client(n)
 	if !cl.setup || cl.term || w.blk != nil {
 		return
@@ -676,12 +703,21 @@ func (w *world) opTerm(n int) {
 	if w.pendCli == cl {
 		return
 	}
-	_ = w.be.Terminate(cl.c)
+	done := make(chan struct{})
+	go func() { _ = w.be.Terminate(cl.c); close(done) }()
+	select {
+	case <-done:
+	case <-time.After(10 * time.Second):
+		w.hang(fmt.Sprintf("term %d", n))
+	}
 	cl.term = true
 	w.emit(fmt.Sprintf("term %d", n), "ok", true)
 }
 
 func (w *world) opClose() {
+	if w.dead || w.hung {
+		return // a call of this history is parked inside the backend (holding its mutex): nothing more can be asked of it
+	}
 	if w.blk != nil || w.pendCli != nil {
 		return
 	}
@@ -1341,19 +1377,38 @@ func runMB(c *hx.Ctx) {
 		replayFile(c, c.Replay)
 		return
 	}
-	famTargets(c)
-	famOwnFull(c)
-	famFailedSetup(c)
-	famSizes(c)
-	famRetained(c)
-	famSamePayload(c)
-	famResumeLeftover(c)
-	famManyRetained(c)
+	// MB_FAMILY=<name>[,<name>…] restricts the run to some families (other properties' checks that need a
+	// backend-level clause without the whole set: C07 runs ownfull,random for queue_full_atomic)
+	want := func(name string) bool {
+		sel := os.Getenv("MB_FAMILY")
+		if sel == "" || sel == "all" {
+			return true
+		}
+		for _, f := range strings.Split(sel, ",") {
+			if f == name {
+				return true
+			}
+		}
+		return false
+	}
+	run := func(name string, f func()) {
+		if want(name) {
+			f()
+		}
+	}
+	run("targets", func() { famTargets(c) })
+	run("ownfull", func() { famOwnFull(c) })
+	run("failedsetup", func() { famFailedSetup(c) })
+	run("sizes", func() { famSizes(c) })
+	run("retained", func() { famRetained(c) })
+	run("samepayload", func() { famSamePayload(c) })
+	run("resumeleftover", func() { famResumeLeftover(c) })
+	run("manyretained", func() { famManyRetained(c) })
 	if c.Thorough() {
-		famExhaustive(c, 4)
-		famRandom(c, 600, 400)
+		run("exhaustive", func() { famExhaustive(c, 4) })
+		run("random", func() { famRandom(c, 600, 400) })
 	} else {
-		famExhaustive(c, 3)
-		famRandom(c, 150, 200)
+		run("exhaustive", func() { famExhaustive(c, 3) })
+		run("random", func() { famRandom(c, 150, 200) })
 	}
 }
